@@ -10,7 +10,8 @@ def main():
                 "an empty collection and equal collections - plus type-filtering nested matches on a base-typed collection "
                 "(FruitBox.fruits: List[Body] with match(Apple)); with MatchSem for each. Every pattern is evaluated through "
                 "entity_matching in two domain orders, again after an in-place edit of a collection (same query object), and "
-                "with select(...) on the container. Non-trivial = a pattern constraining at least one attribute with a "
+                "with select(...) on the container and select(Drawer)(...) on the drawers collection, and once on the same world with "
+                "two falsy cabinets (objects whose __len__ is 0). Non-trivial = a pattern constraining at least one attribute with a "
                 "non-empty expected set; distinct by (pattern, order).")
     pats = [j for j in ctx.run_tlc("Match", "Match_gen.cfg", expect="ok").json_lines() if isinstance(j, dict) and "pc" in j]
     if len(pats) != 161:
@@ -20,14 +21,17 @@ def main():
         if p["pd"] == ["match", "*", "*"]:
             continue        # an unconstrained nested match on a collection generates no condition: not settled by the statement
         for rev in (False, True):
-            cases.append({"pc": p["pc"], "pd": p["pd"], "exp": p["exp"], "exp2": p["exp2"], "selc": p["selc"], "reverse": rev})
+            cases.append({"pc": p["pc"], "pd": p["pd"], "exp": p["exp"], "exp2": p["exp2"], "selc": p["selc"], "seld": p["seld"], "reverse": rev})
+        # the same world with two of the cabinets being falsy objects (a class with __len__ returning 0)
+        cases.append({"pc": p["pc"], "pd": p["pd"], "exp": p["exp"], "exp2": p["exp2"], "selc": p["selc"], "seld": p["seld"], "reverse": False,
+                      "falsy": True})
         for f in p["fruit"]:
             for rev in (False, True):
                 cases.append({"p": f["p"], "exp": f["exp"], "reverse": rev})
     results = replay("matchq", cases, shards=8)
     ctx.replayed = len(cases)
     for c, r in zip(cases, results):
-        key = [c.get("pc"), c.get("pd"), c.get("p"), c["reverse"]]
+        key = [c.get("pc"), c.get("pd"), c.get("p"), c["reverse"]] + (["falsy"] if c.get("falsy") else [])
         ctx.case(key, bool(c["exp"]), sample={"pattern": key, "expected": sorted(c["exp"]), "observed": r.get("cabinets")})
         problems = []
         if r.get("error"):
@@ -48,6 +52,14 @@ def main():
                     f02 = True      # no condition at all between the two selected expressions: cross product (finding F02)
                 else:
                     problems.append(f"select reported {sorted(got)}, expected the matched cabinets with their own containers {sorted(exp)}")
+        if "selected_drawers" in r or "select_drawers_error" in r:
+            got = {tuple(x) for x in r.get("selected_drawers", [])}
+            exp = {tuple(x) for x in c["seld"]}
+            if r.get("select_drawers_error"):
+                problems.append("select on the collection attribute: exception " + r["select_drawers_error"])
+            elif got != exp:
+                problems.append(f"select(Drawer) on the collection attribute reported {sorted(got)}, expected each matched cabinet with its "
+                                f"matching drawers {sorted(exp)}")
         if problems:
             ctx.violation({"pattern": key, "observed": r, "problems": problems}, note="match result differs from the pattern's meaning")
         elif f02:
